@@ -122,11 +122,11 @@ class HsmsRig:
         self.delivered = []
         inner = self.proto._on_connection_message_received
 
-        def recorder(source, message):
+        def recorder(source, message, **kw):   # kw: direct=True when the receiver thread hands a reply over itself (D78)
             self.delivered.append(message)
             if inert:  # framing-only rigs: record, do not run the session logic
                 return None
-            return inner(source, message)
+            return inner(source, message, **kw)
 
         self.proto._on_connection_message_received = recorder
         self.conn = self.proto._connection  # creates the MemConnection and registers the callbacks
